@@ -141,3 +141,85 @@ def lemma_boyd_blocks(reg, repo):
 
 lemma_boyd_blocks.target = "trees.transform.boyd_split"
 LEMMAS["boyd_blocks"] = lemma_boyd_blocks
+
+
+# ----------------------------------------------------------------------------------------------------------------------
+# raising, selection loop: `removal` lists exactly the split nodes below the root that are not head blocks, in preorder
+# ----------------------------------------------------------------------------------------------------------------------
+def lemma_raising_selection(reg, repo):
+    import ast
+    import z3
+    from pyvc.core import Contract, Exec, State
+    from pyvc.heap import Heap
+    from pyvc.sym import (VRef, VBool, VInt, VList, REF, TList, tobool, toint, fresh_name, qforall, conj, Unsupported)
+    from contracts.common import WF, wf_theory, preorder_facts
+    qual = "trees.transform.raising"
+    info = repo.fns.get(qual)
+    if info is None:
+        raise Unsupported("function %s no longer exists" % qual)
+    body = info.node.body
+    loop, init = None, None
+    for i, stmt in enumerate(body):
+        if isinstance(stmt, ast.For) and "removal.append(subtree)" in ast.unparse(stmt) \
+                and "trees.preorder(tree)" in ast.unparse(stmt.iter):
+            prev = body[i - 1] if i > 0 else None
+            if isinstance(prev, ast.Assign) and ast.unparse(prev) == "removal = []":
+                loop, init = stmt, prev
+    if loop is None:
+        raise Unsupported("the selection loop of raising was not found (the contract no longer binds)")
+
+    def selected(H, tree, x):
+        """a split node other than the root that is not a head block"""
+        return z3.And(x != tree.t, z3.Select(H.f["val_split"], x), z3.Not(z3.Select(H.f["val_head_block"], x)))
+
+    def listed(H, tree, removal, upto):
+        P = H.pre(tree)
+        a, b, k = z3.Int(fresh_name("ra")), z3.Int(fresh_name("rb")), z3.Int(fresh_name("rk"))
+        idx = lambda r: H.pre_idx(tree, VRef(r)).t
+        el = lambda q: removal.get(q).t
+        return z3.And(
+            # sound, in preorder, no node twice
+            qforall([a], z3.Implies(z3.And(0 <= a, a < removal.n), z3.And(
+                0 <= idx(el(a)), idx(el(a)) < upto, P.get(idx(el(a))).t == el(a), selected(H, tree, el(a)))), [el(a)]),
+            qforall([a, b], z3.Implies(z3.And(0 <= a, a < b, b < removal.n), idx(el(a)) < idx(el(b))),
+                    [[el(a), el(b)]]),
+            # complete
+            qforall([k], z3.Implies(z3.And(0 <= k, k < upto, selected(H, tree, P.get(k).t)),
+                                    z3.Exists([a], z3.And(0 <= a, a < removal.n, el(a) == P.get(k).t))), [P.get(k).t]))
+
+    def inv(S):
+        return VBool(listed(S.H, S.tree, S.removal, toint(S.it)))
+
+    c = Contract(target=qual, prop="C05", args={}, loops={0: dict(inv=inv, types={"removal": TList(REF)})})
+    ex = Exec(repo, reg, info, c, prefix="C05.raising_selection")
+    H = Heap.fresh("R")
+    st = State(heap=H)
+    for t in H.typing():
+        st.assume(t)
+    tree = VRef(z3.Int(fresh_name("r_tree")))
+    st.env.update(dict(tree=tree))
+    ex.entry_heap = H.copy()
+    x = z3.Int(fresh_name("rx"))
+    st.assume(tree.t != 0)
+    st.assume(tobool(WF(H, tree)))
+    st.assume(tobool(wf_theory(H)))
+    # boyd_split ran before: every node carries the two flags
+    st.assume(qforall([x], z3.Implies(tobool(WF(H, VRef(x))), z3.And(z3.Select(H.f["has_split"], x),
+                                                                    z3.Select(H.f["has_head_block"], x))),
+                      [z3.Select(H.f["has_split"], x)]))
+    ex.obligations = []
+    outs = ex.exec_block([init, loop], st)
+    outs = ex._with_raises(st, outs)
+    vcs = []
+    for oi, o in enumerate(outs):
+        if o.kind != "normal":
+            raise Unsupported("the selection loop has an exceptional exit (%s)" % (o.exc,))
+        vcs.append(("path%d.exactly_the_non_head_block_split_nodes_in_preorder" % oi, list(o.st.pc),
+                    listed(H, tree, o.st.env["removal"], H.pre(tree).n)))
+    for ob in ex.obligations:
+        vcs.append(("loop.%s" % ob.name.split(".", 2)[-1], list(ob.pc), ob.goal))
+    return vcs
+
+
+lemma_raising_selection.target = "trees.transform.raising"
+LEMMAS["raising_selection"] = lemma_raising_selection
